@@ -160,6 +160,16 @@ def ceil : F64 → F64
     ofRatSigned s (-((-q).floor) : Int)
   | x => x
 
+/-- `f64::min` (a NaN operand yields the other one) -/
+def fmin (a b : F64) : F64 :=
+  match a, b with
+  | .nan, b => b
+  | a, .nan => a
+  | a, b => if flt b a then b else a
+
+/-- `f64::MAX` -/
+def maxVal : F64 := .fin false 9007199254740991 971
+
 /-- `f64::EPSILON` = 2^-52 -/
 def epsilon : F64 := .fin false 4503599627370496 (-104)
 /-- `f64::MIN_POSITIVE` = 2^-1022 -/
